@@ -58,7 +58,7 @@ def abort_sweep(chk):
   from vf import build, explore  # noqa: F401
   quick = chk.tier == 'quick'
   jobs = []
-  for prog_name, source in (('group', 'thread'), ('group', 'sigint'), ('start', 'thread'), ('nested', 'thread')):
+  for prog_name, source in (('group', 'thread'), ('group', 'sigint'), ('start', 'thread'), ('nested', 'thread'), ('stubborn', 'thread')):
     roots = explore.split_roots(c04.make_run(prog_name, source, 1), 1, 6)
     cap = 4000 if quick else 40000
     per = max(50, cap // max(1, len(roots)))
